@@ -300,11 +300,14 @@ impl<'de, 'h> Visitor<'de> for V<'h> {
 		match self.0 {
 			Hint::Struct(_, fields) => {
 				while let Some(k) = a.next_key_seed(ObsSeed(&Hint::Identifier))? {
-					let name = match &k {
-						O::Str(s, _) => s.clone(),
+					// like the field visitor of a derived struct: an identifier may arrive as a string or as
+					// bytes; whatever matches no field is an unknown field, whose value is skipped
+					let found = match &k {
+						O::Str(s, _) => fields.iter().find(|f| f.0 == s.as_str()),
+						O::Bytes(b, _) => fields.iter().find(|f| f.0.as_bytes() == &b[..]),
 						other => return Err(A::Error::custom(format!("struct key observed as {other:?}"))),
 					};
-					match fields.iter().find(|f| f.0 == name) {
+					match found {
 						Some((_, h)) => {
 							let v = a.next_value_seed(ObsSeed(h))?;
 							out.push((k, v));
